@@ -7,8 +7,11 @@ ID="$1"; PATCH="$(readlink -f "$2")"; shift 2
 cd /repo || exit 2
 if ! git diff --quiet; then echo "/repo has uncommitted changes, refusing" >&2; exit 2; fi
 git apply "$PATCH" || { echo "patch does not apply" >&2; exit 2; }
-trap 'git -C /repo checkout -- . ' EXIT
 cd /verif
+# the evidence file must describe the unchanged tree: keep it aside while the changed tree is checked
+EV=/verif/evidence/$ID.json; SAVE=$(mktemp)
+[ -f "$EV" ] && cp "$EV" "$SAVE"
+trap 'git -C /repo checkout -- . ; [ -s "$SAVE" ] && cp "$SAVE" "$EV"; rm -f "$SAVE"' EXIT
 START=$(date +%s)
 OUT=$(bin/check "$ID" --tier quick "$@" 2>&1); CODE=$?
 END=$(date +%s)
